@@ -375,6 +375,11 @@ class World:
                 if b == 0:
                     raise Undefined("division by zero")
                 return a / b
+            if op == "%":
+                if b == 0:
+                    raise Undefined("modulo by zero")
+                import math
+                return math.fmod(a, b)    # sign of the dividend, like the constant folder's f64 %
         raise ValueError((ty, op))
 
     # ---------------------------------------------------------------- handlers
